@@ -197,7 +197,8 @@ def _job(args):
     mutated = apply_faults(data, faults, fmt, rng)
     frec = faults
   res = run_pipeline(fmt, mutated, cfg)
-  rec = {"id": rid, "fmt": fmt, "faults": frec, "read": res["read"], "fatal": res["fatal"], "stages": res["stages"]}
+  rec = {"id": rid, "fmt": fmt, "faults": frec, "read": res["read"], "fatal": res["fatal"], "stages": res["stages"],
+         "progress": [p for p in res["progress"] if p["v"]]}
   return rec, {"base": name, "where": res["where"], "input": mutated[:4000].hex() if len(mutated) <= 4000 else mutated[:4000].hex() + "...",
                "input_len": len(mutated), "seed": seed, "reader_cfg": cfg, "mode": "bytes" if faults == "bytes" else "faults"}
 
@@ -264,6 +265,7 @@ def run(ctx):
     if r["read"] == "Doc" or r["read"].startswith("FormatError"):
       j = jobmap[r["id"]]
       ctx.nontrivial((r["fmt"], j[1], json.dumps(j[3]) if j[3] != "bytes" else "b%d" % j[4]))
+  ctx.count("beyond C18 (spec/Progress.tla): progress-callback sequences validated", sum(len(r["progress"]) for r in recs))
   outcome_hist = {}
   for r in recs:
     outcome_hist[r["fmt"] + ":" + r["read"]] = outcome_hist.get(r["fmt"] + ":" + r["read"], 0) + 1
@@ -288,6 +290,8 @@ def run(ctx):
     if not done or done[0][1] != len(part):
       raise T.MachineryError("pipeline trace not consumed: " + tres.out[-1500:])
     ctx.tlc(tres, "pipeline trace validation")
+    for v in tres.values("NOTE"):
+      ctx.count("beyond C18 (spec/Progress.tla): " + v[2])
     for _, rid_, k, clause in tres.values("FAIL"):
       r = byid[rid_]
       m = meta[rid_]
